@@ -697,6 +697,9 @@ func (pe *bufPathEval) finish(st *bpState) error {
 			return nil
 		}
 	}
+	if pe.oe.Fidelity != nil {
+		pe.oe.Fidelity.check(pe, st)
+	}
 	acc := relang.Literal(pe.L.A, "")
 	// emptiness of the buffer before each piece: 0 certainly empty, 1 certainly not, 2 unknown
 	es := 1
@@ -749,3 +752,79 @@ func (pe *bufPathEval) finish(st *bpState) error {
 }
 
 var debugBufPaths = os.Getenv("BUFPATHS_DEBUG") != ""
+
+// cutFidelity: a helper that writes a term with bytes cut off its ends (the comma-encoding helper of
+// URLSetSanitized) must, on every path, cut off exactly the bytes it tested and write them back encoded:
+//
+//	[Enc] term[a : len-b] [Enc]     a, b ∈ {0, 1};  a = 1 ⇔ the path knows the first byte is Byte ⇔ Enc is written before
+//
+// so that the token that comes out is the token that went in, up to the encoding of that byte. The language of the
+// result alone cannot say this (a token with "%2c" appended is still a well-formed URL token).
+type cutFidelity struct {
+	Byte  rune
+	Enc   []string
+	Paths int
+	Bad   []string
+	Skip  []string
+}
+
+func (cf *cutFidelity) check(pe *bufPathEval, st *bpState) {
+	var cuts []int
+	for i, pc := range st.seq {
+		if pc.cut != nil {
+			cuts = append(cuts, i)
+		}
+	}
+	name := pe.bs.fn.Name()
+	if len(cuts) == 0 {
+		return
+	}
+	if len(cuts) > 1 {
+		cf.Bad = append(cf.Bad, name+": a path writes the term more than once")
+		return
+	}
+	c := st.seq[cuts[0]].cut
+	lit := func(pcs []pathPiece) (string, bool) {
+		acc := relang.Literal(pe.L.A, "")
+		for _, pc := range pcs {
+			d, err := pe.pieceDFA(pc, st, false)
+			if err != nil || d == nil {
+				return "", false
+			}
+			acc = relang.Concat(acc, d).Minimize()
+		}
+		for _, k := range append([]string{""}, cf.Enc...) {
+			if ok, _ := relang.Subset(acc, relang.Literal(pe.L.A, k)); ok && acc.Accepts(k) {
+				return k, true
+			}
+		}
+		return "?", true
+	}
+	pre, ok1 := lit(st.seq[:cuts[0]])
+	post, ok2 := lit(st.seq[cuts[0]+1:])
+	if !ok1 || !ok2 {
+		cf.Skip = append(cf.Skip, name+": a path writes something besides constants and the term")
+		return
+	}
+	cf.Paths++
+	d := st.lang[c.key]
+	b := relang.Literal(pe.L.A, string(cf.Byte))
+	starts, _ := relang.Subset(d, relang.Concat(b, pe.any))
+	ends, _ := relang.Subset(d, relang.Concat(pe.any, b))
+	side := func(which string, n int, tested bool, written string) {
+		switch {
+		case n == 0 && written == "":
+		case n == 1 && tested && written != "" && written != "?":
+		case n == 0:
+			cf.Bad = append(cf.Bad, fmt.Sprintf("%s: a path writes %q %s the term without having cut a byte off there: the token that comes out is not the token that went in", name, written, which))
+		case n == 1 && !tested:
+			cf.Bad = append(cf.Bad, fmt.Sprintf("%s: a path cuts a byte off %s the term that it has not tested to be %q", name, which, string(cf.Byte)))
+		case n == 1:
+			cf.Bad = append(cf.Bad, fmt.Sprintf("%s: a path cuts the %q off %s the term and writes %q in its place instead of its encoding", name, string(cf.Byte), which, written))
+		default:
+			cf.Bad = append(cf.Bad, fmt.Sprintf("%s: a path cuts %d bytes off %s the term", name, n, which))
+		}
+	}
+	side("before", c.a, starts, pre)
+	side("after", c.b, ends, post)
+}
